@@ -182,6 +182,9 @@ func (v *VerifCtl) validationErrorText(obj interface{}) string {
 type VErr struct {
 	Expected bool `json:"expected"`
 	Reported bool `json:"reported"`
+	// Unnamed lists "object: warning" for every success Event of the step whose message does not name a warning that
+	// the Configuration holds for that object after the step (its own warnings, or its child warnings as a minion)
+	Unnamed []string `json:"unnamed,omitempty"`
 }
 
 // VProbe tells whether the real informer event handler of the kind passed the event on to the sync queue.
@@ -318,7 +321,40 @@ func (v *VerifCtl) Apply(kindName, key string, obj interface{}) (evs []VEvent, w
 			}
 		}
 	}
+	verr.Unnamed = v.unnamedWarnings(evs)
 	return evs, writes, verr, nil
+}
+
+// unnamedWarnings: an "added or updated" Event must name every warning the Configuration holds for the object
+func (v *VerifCtl) unnamedWarnings(evs []VEvent) []string {
+	held := map[string][]string{}
+	for _, r := range v.lbc.configuration.GetResources() {
+		switch impl := r.(type) {
+		case *IngressConfiguration:
+			held["Ingress/"+getResourceKey(&impl.Ingress.ObjectMeta)] = append([]string{}, impl.Warnings...)
+			for _, m := range impl.Minions {
+				k := getResourceKey(&m.Ingress.ObjectMeta)
+				held["Ingress/"+k] = append([]string{}, impl.ChildWarnings[k]...)
+			}
+		case *VirtualServerConfiguration:
+			held["VirtualServer/"+getResourceKey(&impl.VirtualServer.ObjectMeta)] = append([]string{}, impl.Warnings...)
+		case *TransportServerConfiguration:
+			held["TransportServer/"+getResourceKey(&impl.TransportServer.ObjectMeta)] = append([]string{}, impl.Warnings...)
+		}
+	}
+	var out []string
+	for _, e := range evs {
+		if !strings.HasPrefix(e.Reason, "AddedOrUpdated") {
+			continue
+		}
+		for _, w := range held[e.Obj] {
+			if !strings.Contains(e.msg, w) {
+				out = append(out, e.Obj+": "+w)
+			}
+		}
+	}
+	sort.Strings(out)
+	return out
 }
 
 // statusWrites are the writes to status subresources (and Ingress updates) the fake clientsets saw since
@@ -427,6 +463,14 @@ func (v *VerifCtl) Leader() []VStatusWrite {
 		}
 		return true, out, nil
 	})
+	// the address this controller publishes is known, and every Ingress of the cluster carries it in its status, whoever
+	// serves it (an address taken over from, or shared with, another controller)
+	v.lbc.statusUpdater.SaveStatusFromExternalStatus("203.0.113.7")
+	for _, o := range nsi.ingressLister.Store.List() {
+		if ing, ok := o.(*networking.Ingress); ok {
+			ing.Status.LoadBalancer.Ingress = []networking.IngressLoadBalancerIngress{{IP: "203.0.113.7"}}
+		}
+	}
 	v.kube.ClearActions()
 	v.conf.ClearActions()
 	createLeaderHandler(v.lbc).OnStartedLeading(context.Background())
